@@ -228,4 +228,62 @@ theorem trimEnd_trimStart_lineOf_prefix (p : List Char × Bool) :
     · exact trimEnd_prefix _
   · exact trimEnd_prefix _
 
+/-! ### more on `splitNl` and trimming (whole-buffer-line reading of C25) -/
+
+theorem splitNl_line (l r : List Char) (h : '\n' ∉ l) : splitNl (l ++ '\n' :: r) = (l, true) :: splitNl r := by
+  induction l with
+  | nil => simp [splitNl]
+  | cons a l ih =>
+    have ha : a ≠ '\n' := fun e => h (by simp [e])
+    have hl : '\n' ∉ l := fun hm => h (by simp [hm])
+    rw [List.cons_append, splitNl, if_neg ha, ih hl]
+
+theorem splitNl_append_lineStart (a b : List Char) (h : a = [] ∨ a.getLast? = some '\n') :
+    splitNl (a ++ b) = splitNl a ++ splitNl b := by
+  induction a with
+  | nil => simp [splitNl]
+  | cons c cs ih =>
+    have hlast : (c :: cs).getLast? = some '\n' := by
+      rcases h with h | h
+      · simp at h
+      · exact h
+    cases cs with
+    | nil =>
+      simp at hlast; subst hlast
+      simp [splitNl]
+    | cons d ds =>
+      rw [List.getLast?_cons_cons] at hlast
+      have ih' := ih (Or.inr hlast)
+      rw [List.cons_append, splitNl, splitNl, ih']
+      by_cases hc : c = '\n'
+      · simp [hc]
+      · simp only [hc, if_false]
+        have hne := splitNl_ne_nil d ds
+        cases hs : splitNl (d :: ds) with
+        | nil => exact absurd hs hne
+        | cons p r => simp
+
+theorem trimStart_white_append (w x : List Char) (hw : ∀ c ∈ w, isWhite c = true) :
+    trimStart (w ++ x) = trimStart x := by
+  induction w with
+  | nil => rfl
+  | cons a w ih =>
+    have ha := hw a (by simp)
+    simp only [trimStart, List.cons_append, List.dropWhile_cons, ha, if_true] at ih ⊢
+    exact ih (fun c hc => hw c (by simp [hc]))
+
+theorem trimStart_idem (x : List Char) : trimStart (trimStart x) = trimStart x := by
+  induction x with
+  | nil => rfl
+  | cons a x ih =>
+    by_cases ha : isWhite a = true
+    · simp only [trimStart, List.dropWhile_cons, ha, if_true] at ih ⊢; exact ih
+    · simp [trimStart, ha]
+
+theorem trim_white_append (w x : List Char) (hw : ∀ c ∈ w, isWhite c = true) : trim (w ++ x) = trim x := by
+  simp [trim, trimStart_white_append w x hw]
+
+theorem trim_trimStart (x : List Char) : trim (trimStart x) = trim x := by
+  simp [trim, trimStart_idem]
+
 end Witverif.Text.RustStr
